@@ -701,6 +701,11 @@ def c08():
         for data in ({"x": "d"}, {}):
             exp = _c08_run(prog, partial_bodies, data)
             out.append(R(_c08_src(prog), {"output": exp} if exp is not None else {"error": True}, data, srcs, "include/render reference interpreter"))
+    # render ... for: every element starts from the explicit arguments only - nothing survives from the previous element
+    out.append(R("{% render 'acc' for (1..3) as v %}", {"output": "[fresh][fresh][fresh]"}, {}, {"acc": "{% if seen %}[stale:{{ seen }}]{% else %}[fresh]{% endif %}{% assign seen = v %}"}))
+    out.append(R("{% render 'cap' for (1..2) as v %}", {"output": "<><>"}, {}, {"cap": "{% if c %}<stale>{% else %}<>{% endif %}{% capture c %}x{{ v }}{% endcapture %}"}))
+    out.append(R("{% assign v = 'outer' %}{% include 'set' a: 1 %}{{ v }}", {"output": "inner"}, {}, {"set": "{% assign v = 'inner' %}"}, "assignments made by an included partial reach the caller, with or without arguments"))
+    out.append(R("{% include 'cap2' a: 1 %}[{{ c }}]", {"output": "[x]"}, {}, {"cap2": "{% capture c %}x{% endcapture %}"}))
     # a partial that does not parse fails only when it is used
     out.append(R("ok{% if false %}{% include 'broken' %}{% endif %}", {"output": "ok"}, {}, {"broken": "{% if %}"}))
     out.append(R("{% include 'broken' %}", {"error": True}, {}, {"broken": "{% if %}"}))
@@ -756,6 +761,8 @@ def c14():
             out.append(SAME("{% assign r = a | last %}{% if r == nil %}nil{% else %}{{ r }}{% endif %}", "{% assign r = a[-1] %}{% if r == nil %}nil{% else %}{{ r }}{% endif %}", d, "last agrees with indexing"))
         strs = ["" if x is None else str(x) for x in a]
         out.append(R("{{ a | join: ',' }}", {"output": ",".join(strs)}, d))
+    for a, exp in (([1, 1.0, 2.0, 2, 1], 2), ([0, 0.0], 1), ([1, "1"], 2), ([1.5, 1.5, 2], 2)):
+        out.append(R("{{ a | uniq | size }}", {"output": str(exp)}, {"a": a}, "uniq drops exactly the elements equal to an earlier kept one (an integer equals the float denoting the same number)"))
     # case-insensitive sort; strings differing only in case keep their relative order only up to the key
     for a in (["b", "A", "a", "C"], ["B", "b", None, "a"], ["x"], []):
         nonnil = [x for x in a if x is not None]
@@ -791,12 +798,33 @@ def c09():
     tpls = [stateful, failing_midway, with_partial]
     datas = [{"x": 1}, {"x": "s", "v": "outer"}]
     partials = {"p": "{% assign v = 'set-by-partial' %}{% cycle 'a', 'b' %}{% increment c %}"}
-    return [{"kind": "render_history", "templates": tpls, "datas": datas, "length": 3, "partials": partials},
-            {"kind": "render_history", "templates": tpls[:2], "datas": datas, "length": 5}]
+    out = [{"kind": "render_history", "templates": tpls, "datas": datas, "length": 3, "partials": partials},
+           {"kind": "render_history", "templates": tpls[:2], "datas": datas, "length": 5}]
+    # partial names chosen through variables, partials whose names differ only by the `.liquid` suffix, under every compilation policy
+    twins = {"row": "ROW", "row.liquid": "ROW-LIQUID", "home": "HOME", "about": "ABOUT{% increment n %}"}
+    dyn = ["{% render page %}|{% include page %}", "{% include 'row' %}", "{% include 'row.liquid' %}", "{% render 'row' %}{% render 'row.liquid' %}"]
+    ddat = [{"page": "home"}, {"page": "about"}, {"page": "missing"}]
+    for policy in ("eager", "lazy", "ondemand"):
+        out.append({"kind": "render_history", "templates": dyn, "datas": ddat, "length": 2, "partials": twins, "policy": policy})
+    return out
 
 
 def c11():
-    return [{"kind": "value_laws"}] + [w for w in c06() if w["kind"] == "render_same"]
+    out = [{"kind": "value_laws"}] + [w for w in c06() if w["kind"] == "render_same"]
+    # equality seen through uniq / contains / case agrees with == (the outcome depends only on the values)
+    names = [k for k, _ in POOL]
+    vals = dict(POOL)
+    pairs = {}
+    for x, y in itertools.product(names, names):
+        pairs[f"p_{x}_{y}"] = [vals[x], vals[y]]
+    data = dict(POOL_DATA, **pairs)
+    for x, y in itertools.product(names, names):
+        pr = f"p_{x}_{y}"
+        out.append(SAME("{% if X == Y %}1{% else %}2{% endif %}".replace("X", x).replace("Y", y), "{{ %s | uniq | size }}" % pr, data, "uniq collapses two elements exactly when they are =="))
+        if vals[y] is not None and not isinstance(vals[y], (list, dict)):
+            out.append(SAME("{% if X == Y %}1{% else %}0{% endif %}".replace("X", x).replace("Y", y),
+                            "{%% assign tmp_first = %s | slice: 0, 1 %%}{%% if tmp_first contains Y %%}1{%% else %%}0{%% endif %%}".replace("Y", y) % pr, data, "array contains agrees with =="))
+    return out
 
 
 def c12():
